@@ -8,7 +8,7 @@ static unodb::value_view vv(const std::uint8_t* b, std::size_t n) { return unodb
 #define B 0x0102030405060700ULL
 static const std::uint64_t K[] = {B | 0x10, B | 0x20, B | 0x30};
 static void build(db_t& d) {
-  for (unsigned i = 0; i < 3; i++) { std::uint8_t v = static_cast<std::uint8_t>(i + 1); bool r = d.insert(K[i], vv(&v, 1)); PROP(r, "C13: prelude insert succeeds"); PROP(verif_mutex_held() == 0, "C13: insert returns with the index mutex released"); }
+  for (unsigned i = 0; i < 3; i++) { std::uint8_t v = static_cast<std::uint8_t>(i + 1); bool r = d.insert(K[i], vv(&v, i == 1 ? 0 : 1)); /* K[1] has an EMPTY value */ PROP(r, "C13: prelude insert succeeds"); PROP(verif_mutex_held() == 0, "C13: insert returns with the index mutex released"); }
 }
 static int idx_of(std::uint64_t k) { int r = -1; for (unsigned i = 0; i < 3; i++) if (K[i] == k) r = static_cast<int>(i); return r; }
 
@@ -23,7 +23,7 @@ HARNESS(mx_get) {
     if (r.first.has_value()) {
       PROP(r.second.owns_lock(), "C13: a get that finds its key returns a handle that owns the index mutex");
       PROP(verif_mutex_held() == 1, "C13: ... and the mutex is really held while the handle lives");
-      PROP(r.first->size() == 1 && static_cast<std::uint8_t>((*r.first)[0]) == static_cast<std::uint8_t>(idx + 1), "C13: the value bytes are those of the entry while the handle is held");
+      PROP(r.first->size() == (idx == 1 ? 0u : 1u) && (idx == 1 || static_cast<std::uint8_t>((*r.first)[0]) == static_cast<std::uint8_t>(idx + 1)), "C13: the value bytes are those of the entry while the handle is held (entry #1 has an empty value)");
     } else {
       PROP(!r.second.owns_lock(), "C13: a get that misses returns a handle that does not own the mutex");
       PROP(verif_mutex_held() == 0, "C13: a get that misses returns with the mutex released");
